@@ -113,3 +113,36 @@ Definition loader_matches (validate : bool) : bool :=
   end.
 Lemma shipped_loader_matches : loader_matches true = true /\ loader_matches false = true.
 Proof. vm_compute. split; reflexivity. Qed.
+
+(* ---------------------------------------------------------------- overrides through the loader model *)
+Lemma load_model_ovr_empty validate lo hi p :
+  load_model_ovr validate lo hi ([], []) p = load_model validate lo hi p.
+Proof. reflexivity. Qed.
+
+(* a site overrides.proto (as protobuf messages) and the same overrides as specification entries:
+   an ESTA PID, one PID of a manufacturer that ships seven, a manufacturer nobody ships *)
+Definition nm (l : list N) := l.
+Definition ovr_proto : pstore :=
+  ([(nm [68;77;88], 240, [Some [PF 2 None None []]; None; None; None])],
+   [(31344, [(nm [83;78], 32768, [Some []; Some [PF 5 None (Some 8) []]; None; None])]);
+    (4660, [(nm [78;69;87], 32768, [None; Some [PF 1 None None []]; None; None])])]).
+Definition ovr_spec : list ovr_entry :=
+  [(0, 240, nm [68;77;88], [Some [FInt 1 false false]; None; None; None]);
+   (31344, 32768, nm [83;78], [Some []; Some [FString 0 8]; None; None]);
+   (4660, 32768, nm [78;69;87], [None; Some [FBool]; None; None])].
+Definition loader_ovr_matches (validate : bool) : bool :=
+  match load_model_ovr validate MANUFACTURER_PID_MIN MANUFACTURER_PID_MAX ovr_proto shipped_proto with
+  | None => false
+  | Some (L, ids) =>
+    let ep := override_pids PidDescs.pids ovr_spec in
+    let ed := override_descs PidDescs.all ovr_spec in
+    let ei := override_ids (map (fun t => fst (fst t)) store_index_sizes) ovr_spec in
+    same_pids (pids_of L) ep && same_pids ep (pids_of L) &&
+    same_descs (descs_of L) ed && same_descs ed (descs_of L) &&
+    (len ids =? len ei) && forallb (fun i => existsb (N.eqb i) ids) ei &&
+    (* the six other PIDs of manufacturer 0x7a70 are still there *)
+    (store_count (pids_of L) 31344 =? store_count PidDescs.pids 31344)
+  end.
+Lemma shipped_loader_ovr_matches : loader_ovr_matches true = true /\ loader_ovr_matches false = true.
+Proof. vm_compute. split; reflexivity. Qed.
+
